@@ -184,3 +184,200 @@ impl crate::vm::VM {
         r
     }
 }
+
+// ---- read-only heap audit (C03) -----------------------------------------------------------
+// An independent traversal of the heap: for every live object its slot index, kind, mark bit,
+// a digest of its contents and ALL outgoing heap references, with the constants of nested
+// (not yet instantiated) functions reported as a tree so that callers can tell which
+// references the collector's own traversal would have to follow.
+
+/// Constant-pool pointers of one bytecode function and, recursively, of its nested functions.
+#[derive(Debug, Clone, PartialEq, Eq)]
+pub struct AuditFn {
+    pub own: Vec<usize>,
+    pub nested: Vec<AuditFn>,
+}
+
+#[derive(Debug, Clone, PartialEq, Eq)]
+pub struct AuditObj {
+    pub index: usize,
+    /// 0 String, 1 Function, 2 Native, 3 Upvalue, 4 Closure, 5 Array, 6 Vec
+    pub kind: u8,
+    pub marked: bool,
+    /// FNV-1a over the object's contents (string bytes, element words, constant words, ...)
+    pub digest: u64,
+    /// Closure: function then upvalues; Upvalue: the closed value when it is a pointer;
+    /// Array/Vec: pointer elements of object storage; Function: see `func`.
+    pub refs: Vec<usize>,
+    /// Function objects only.
+    pub func: Option<AuditFn>,
+}
+
+fn audit_fnv(h: &mut u64, bytes: &[u8]) {
+    for b in bytes {
+        *h ^= *b as u64;
+        *h = h.wrapping_mul(0x0000_0100_0000_01B3);
+    }
+}
+
+fn audit_fn(f: &aelys_bytecode::Function, h: &mut u64) -> AuditFn {
+    let mut own = Vec::new();
+    audit_fnv(h, &(f.constants.len() as u64).to_le_bytes());
+    for c in &f.constants {
+        audit_fnv(h, &c.raw_bits().to_le_bytes());
+        if let Some(p) = c.as_ptr() {
+            own.push(p);
+        }
+    }
+    audit_fnv(h, &(f.bytecode.len() as u64).to_le_bytes());
+    audit_fnv(h, &[f.arity, f.num_registers]);
+    audit_fnv(h, &(f.nested_functions.len() as u64).to_le_bytes());
+    let nested = f.nested_functions.iter().map(|n| audit_fn(n, h)).collect();
+    AuditFn { own, nested }
+}
+
+thread_local! {
+    #[allow(clippy::type_complexity)]
+    static GC_AUDIT: RefCell<Option<Box<dyn FnMut(&crate::vm::VM, bool)>>> = const { RefCell::new(None) };
+}
+
+/// Install a callback invoked at the start (`false`) and at the end (`true`) of every
+/// `VM::collect` on this thread.  The callback gets the VM read-only.
+pub fn gc_audit_install(f: Box<dyn FnMut(&crate::vm::VM, bool)>) {
+    GC_AUDIT.with(|c| *c.borrow_mut() = Some(f));
+}
+pub fn gc_audit_remove() {
+    GC_AUDIT.with(|c| *c.borrow_mut() = None);
+}
+/// Called from `VM::collect` (before marking / after sweeping).
+pub fn gc_audit(vm: &crate::vm::VM, after: bool) {
+    let cb = GC_AUDIT.with(|c| c.borrow_mut().take());
+    if let Some(mut f) = cb {
+        f(vm, after);
+        GC_AUDIT.with(|c| {
+            let mut slot = c.borrow_mut();
+            if slot.is_none() {
+                *slot = Some(f);
+            }
+        });
+    }
+}
+
+impl crate::vm::VM {
+    /// Every live heap object with all its outgoing heap references (see `AuditObj`).
+    pub fn verif_heap_audit(&self) -> Vec<AuditObj> {
+        use aelys_bytecode::object::{ObjectKind, UpvalueLocation};
+        let mut out = Vec::new();
+        let live = self.heap.object_count();
+        let mut seen = 0usize;
+        let mut idx = 0usize;
+        while seen < live {
+            if let Some(obj) = self.heap.get(crate::vm::GcRef::new(idx)) {
+                seen += 1;
+                let mut h: u64 = 0xCBF2_9CE4_8422_2325;
+                let mut refs = Vec::new();
+                let mut func = None;
+                let kind = match &obj.kind {
+                    ObjectKind::String(s) => {
+                        audit_fnv(&mut h, s.as_str().as_bytes());
+                        0
+                    }
+                    ObjectKind::Function(f) => {
+                        func = Some(audit_fn(&f.function, &mut h));
+                        1
+                    }
+                    ObjectKind::Native(n) => {
+                        audit_fnv(&mut h, n.name.as_bytes());
+                        audit_fnv(&mut h, &[n.arity]);
+                        2
+                    }
+                    ObjectKind::Upvalue(u) => {
+                        match &u.location {
+                            UpvalueLocation::Open { frame_base, register } => {
+                                audit_fnv(&mut h, &[1]);
+                                audit_fnv(&mut h, &(*frame_base as u64).to_le_bytes());
+                                audit_fnv(&mut h, &[*register]);
+                            }
+                            UpvalueLocation::Closed(v) => {
+                                audit_fnv(&mut h, &[2]);
+                                audit_fnv(&mut h, &v.raw_bits().to_le_bytes());
+                                if let Some(p) = v.as_ptr() {
+                                    refs.push(p);
+                                }
+                            }
+                        }
+                        3
+                    }
+                    ObjectKind::Closure(c) => {
+                        refs.push(c.function.index());
+                        for u in &c.upvalues {
+                            refs.push(u.index());
+                        }
+                        for r in &refs {
+                            audit_fnv(&mut h, &(*r as u64).to_le_bytes());
+                        }
+                        4
+                    }
+                    ObjectKind::Array(a) => {
+                        audit_fnv(&mut h, &[a.data.type_tag() as u8]);
+                        audit_fnv(&mut h, &(a.len() as u64).to_le_bytes());
+                        for i in 0..a.len() {
+                            if let Some(v) = a.get(i) {
+                                audit_fnv(&mut h, &v.raw_bits().to_le_bytes());
+                            }
+                        }
+                        if let Some(objs) = a.data.as_objects() {
+                            for v in objs {
+                                if let Some(p) = v.as_ptr() {
+                                    refs.push(p);
+                                }
+                            }
+                        }
+                        5
+                    }
+                    ObjectKind::Vec(v) => {
+                        audit_fnv(&mut h, &[v.type_tag() as u8]);
+                        audit_fnv(&mut h, &(v.len() as u64).to_le_bytes());
+                        for i in 0..v.len() {
+                            if let Some(x) = v.get(i) {
+                                audit_fnv(&mut h, &x.raw_bits().to_le_bytes());
+                            }
+                        }
+                        if let Some(objs) = v.objects() {
+                            for x in objs {
+                                if let Some(p) = x.as_ptr() {
+                                    refs.push(p);
+                                }
+                            }
+                        }
+                        6
+                    }
+                };
+                out.push(AuditObj { index: idx, kind, marked: obj.marked, digest: h, refs, func });
+            }
+            idx += 1;
+        }
+        out
+    }
+
+    /// Where the interpreter stands: (frame depth, ip of the top frame, opcode byte of the
+    /// instruction before ip) -- identifies the safepoint a collection runs at.
+    pub fn verif_safepoint_site(&self) -> (usize, usize, u8) {
+        match self.frames.last() {
+            Some(f) => {
+                let op = if f.ip >= 1 && f.ip <= f.bytecode_len && !f.bytecode_ptr.is_null() {
+                    (unsafe { *f.bytecode_ptr.add(f.ip - 1) } >> 24) as u8
+                } else {
+                    0xFF
+                };
+                (self.frames.len(), f.ip, op)
+            }
+            None => (0, 0, 0xFF),
+        }
+    }
+
+    /// The heap's free list (top of stack last) and its number of slots.
+    pub fn verif_free_list(&self) -> (Vec<usize>, usize) {
+        (self.heap.verif_free_list(), self.heap.verif_slot_count())
+    }
+}
